@@ -95,6 +95,21 @@ Proof.
     + cbn [bindo fst snd C16Lines.skip_ws]. eexists. split; [reflexivity|auto].
 Qed.
 
+Lemma rd_upto_aux n (s : stream) q : rd_vals_aux n s = Some q -> rd_upto D T parse ofZ n s = q.
+Proof.
+  revert s q; induction n as [|n IH]; intros s q H; cbn in H |- *; [now inversion H|].
+  destruct (C16Lines.skip_ws T s) as [|[t|] r]; try discriminate.
+  destruct (val_tok D T parse ofZ t) as [v|]; [|discriminate]. cbn [bindo] in H.
+  destruct (rd_vals_aux n r) as [q'|] eqn:E; [|discriminate]. cbn [bindo] in H. inversion H; subst.
+  now rewrite (IH r q' E).
+Qed.
+Lemma rd_weights_vals n (s : stream) q : rd_vals n s = Some q -> rd_weights D T parse ofZ n s = q.
+Proof.
+  unfold C16Lines.rd_vals, rd_weights. destruct n; [intros H; now inversion H|].
+  destruct (rd_vals_aux (S n) s) as [q'|] eqn:E; [|discriminate]. cbn [bindo]. intros H; inversion H; subst.
+  now rewrite (rd_upto_aux _ _ _ E).
+Qed.
+
 Lemma one_per_line_rows (l : list D) : l <> [] ->
   one_per_line D T print l = map (num_line D T print) (map (fun v => [v]) l).
 Proof. intros H. unfold one_per_line. destruct l; [congruence|]. rewrite map_map. reflexivity. Qed.
@@ -147,7 +162,7 @@ Lemma rd_factors_lines_l R (Fs : list (list (list D))) : 1 <= R ->
   rd_factors_l R (length Fs) (to_stream (flat_map (factor_lines D T print R) Fs)) = Some Fs.
 Proof.
   intros HR. induction Fs as [|A Fs IH]; intros H; [reflexivity|]. inversion H as [|? ? HA HFs]; subst.
-  cbn [length flat_map C16Lines.rd_factors_l]. unfold factor_lines at 1. rewrite <- app_comm_cons, to_stream_app.
+  cbn [length flat_map C16Lines.rd_factors_l]. unfold factor_lines at 1. rewrite to_stream_app.
   rewrite readline_cons. cbn [fst snd]. rewrite to_stream_app, <- app_assoc, rd_shape_l_lines by discriminate.
   cbn [bindo fst snd]. rewrite Nat.eqb_refl.
   assert (Hrows : Forall (fun r : list D => r <> []) A).
@@ -167,7 +182,7 @@ Qed.
 Definition wf_lines (o : obj D) : Prop :=
   match o with
   | OTensor X => dshape X <> []
-  | OSptensor S => sshape S <> []
+  | OSptensor Sp => sshape Sp <> []
   | OKtensor K => kfactors K <> [] /\ 1 <= krank K
   | OMatrix _ _ _ => True
   | OArray s _ => s <> []
@@ -175,20 +190,20 @@ Definition wf_lines (o : obj D) : Prop :=
 
 Theorem roundtrip_lines b (o : obj D) : wf_obj D o -> wf_lines o -> import_lines b (export_lines b o) = Some o.
 Proof.
-  destruct o as [X|S|K|m n A|s c]; cbn [wf_obj wf_lines]; unfold C16Lines.import_lines, C16IO.export_lines.
+  destruct o as [X|Sp|K|m n A|s c]; cbn [wf_obj wf_lines]; unfold C16Lines.import_lines, C16IO.export_lines.
   - intros W Hne. rewrite <- (app_nil_r (to_stream _)). unfold C16Lines.import_stream. rewrite readline_cons. cbn [fst snd].
     cbn [String.eqb Ascii.eqb Bool.eqb]. rewrite to_stream_app, <- app_assoc, rd_shape_l_lines by exact Hne. cbn [bindo fst snd].
     rewrite app_nil_r, (ravelC_transpose D d0 X W). rewrite <- W.
     destruct (rd_vals_one_per_line (ddata X)) as (s' & E). rewrite E. cbn [bindo fst snd].
-    rewrite W. rewrite (reshapeF_1d D d0) by (unfold wf_dense in W; lia). now destruct X.
+    rewrite (reshapeF_1d D d0) by (unfold wf_dense in W; lia). now destruct X.
   - intros [HL Hb] Hne. rewrite <- (app_nil_r (to_stream _)). unfold C16Lines.import_stream. rewrite readline_cons. cbn [fst snd].
     cbn [String.eqb Ascii.eqb Bool.eqb]. rewrite to_stream_app, <- app_assoc, rd_shape_l_lines by exact Hne. cbn [bindo fst snd].
     rewrite readline_cons. cbn [fst snd head_int int_tok C16IO.zn bindo]. unfold nat_of.
-    destruct (Z.leb_spec 0 (Z.of_nat (length (ssubs S)))); [|lia]. cbn [bindo]. rewrite Nat2Z.id, app_nil_r.
-    assert (HE : length (ssubs S) = length (entries S)) by (unfold entries; rewrite combine_length; lia).
+    destruct (Z.leb_spec 0 (Z.of_nat (length (ssubs Sp)))); [|lia]. cbn [bindo]. rewrite Nat2Z.id, app_nil_r.
+    assert (HE : length (ssubs Sp) = length (entries Sp)) by (unfold entries; rewrite combine_length; lia).
     rewrite HE, rd_entries_lines_l.
     + cbn [bindo]. unfold entries. rewrite map_fst_combine, map_snd_combine by auto.
-      replace (forallb (inb (sshape S)) (ssubs S)) with true; [now destruct S|].
+      replace (forallb (inb (sshape Sp)) (ssubs Sp)) with true; [now destruct Sp|].
       symmetry. apply forallb_forall. rewrite Forall_forall in Hb. auto.
     + rewrite Forall_forall. intros [i v] Hin. cbn [fst]. unfold entries in Hin. apply in_combine_l in Hin.
       rewrite Forall_forall in Hb. apply inb_length. auto.
@@ -200,11 +215,11 @@ Proof.
     destruct (Z.leb_spec 0 (Z.of_nat (krank K))); [|lia]. cbn [bindo]. rewrite Nat2Z.id, app_nil_r.
     destruct (rd_vals_rows [kweights K] (to_stream (flat_map (factor_lines D T print (krank K)) (kfactors K)))) as (s' & E & Hs').
     { constructor; [|constructor]. intros E. unfold krank in HR. rewrite E in HR. cbn in HR. lia. }
-    cbn [concat map] in E. rewrite app_nil_r in E. unfold krank at 1. rewrite to_stream_cons.
-    change (map Some (num_line D T print (kweights K)) ++ None :: ?x) with (to_stream [num_line D T print (kweights K)] ++ x) in |- *.
-    rewrite E. cbn [bindo fst snd]. rewrite Hs' by discriminate.
+    cbn [concat map] in E. rewrite app_nil_r in E. fold (krank K) in E. rewrite to_stream_cons.
+    rewrite to_stream_cons in E. change (to_stream []) with (@nil (option token)) in E. rewrite <- app_assoc in E. cbn [app] in E.
+    rewrite (rd_weights_vals _ _ _ E). cbn [bindo fst snd]. rewrite Hs' by discriminate.
     rewrite skip_ws_lines.
-    + rewrite map_length. rewrite <- (map_length (@nrows D) (kfactors K)). fold (kshape K). rewrite length_kshape.
+    + rewrite map_length, (length_kshape D K). fold (krank K).
       rewrite rd_factors_lines_l by auto. cbn [bindo]. now destruct K.
     + intros l f' Ef. destruct (kfactors K) as [|B Fs']; [congruence|]. cbn [flat_map] in Ef. unfold factor_lines at 1 in Ef.
       inversion Ef. discriminate.
@@ -219,3 +234,152 @@ Proof.
     destruct s as [|d1 [|d2 [|d3 s'']]]; try (cbn in Hs; congruence); rewrite <- Hc, E; reflexivity.
 Qed.
 End P.
+
+(* ================================================================ what import rejects (no hypothesis on number texts) *)
+Section G.
+Variables (D T : Type) (d0 : D) (parse : T -> D) (ofZ : Z -> D).
+Notation token := (token T).
+Notation line := (list token).
+Notation import_lines := (import_lines D T d0 parse ofZ).
+Notation entry_of_line := (entry_of_line D T parse ofZ).
+
+Lemma subs_of_length b (l : line) i : subs_of T b l = Some i -> length i = length l.
+Proof.
+  revert i; induction l as [|t l IH]; intros i H; cbn in H; [inversion H; reflexivity|].
+  destruct (sub_of T b t); [|discriminate]. destruct (subs_of T b l) as [xs|]; [|discriminate].
+  inversion H; subst. cbn. f_equal. now apply IH.
+Qed.
+
+(* one subscript row per line, EXACTLY: a line is read as the entry (i, v) iff it is  t_1 ... t_k tv  with tv a number text
+   (or an integer text) of value v, every t_j an integer text not below the index base, and either k = N (i = the
+   subscripts minus the base) or k = 1 <> N (numpy broadcasts the single subscript to all N modes) *)
+Theorem entry_of_line_iff b N (l : line) i v :
+  entry_of_line b N l = Some (i, v) <->
+  exists ts tv j, l = ts ++ [tv] /\ val_tok D T parse ofZ tv = Some v /\ subs_of T b ts = Some j /\
+                  ((length j = N /\ i = j) \/ (length j <> N /\ exists x, j = [x] /\ i = repeat x N)).
+Proof.
+  unfold C16Lines.entry_of_line. split.
+  - destruct (rev l) as [|tv rsubs] eqn:E; [discriminate|].
+    assert (El : l = rev rsubs ++ [tv]) by (rewrite <- (rev_involutive l), E; reflexivity).
+    destruct (val_tok D T parse ofZ tv) as [v'|] eqn:Ev; [|discriminate]. cbn [bindo].
+    destruct (subs_of T b (rev rsubs)) as [j|] eqn:Ej; [|discriminate]. cbn [bindo].
+    destruct (Nat.eqb_spec (length j) N) as [HN|HN].
+    + intros H; inversion H; subst. exists (rev rsubs), tv, i. repeat split; auto.
+    + destruct j as [|x [|y j']]; try discriminate. intros H; inversion H; subst.
+      exists (rev rsubs), tv, [x]. repeat split; auto. right. split; [exact HN|eauto].
+  - intros (ts & tv & j & -> & Ev & Ej & Hc). rewrite rev_app_distr. cbn [rev app]. rewrite Ev. cbn [bindo].
+    rewrite rev_involutive, Ej. cbn [bindo]. destruct Hc as [[HN ->]|[HN (x & -> & ->)]].
+    + now rewrite <- HN, Nat.eqb_refl.
+    + destruct (Nat.eqb_spec (length [x]) N); [contradiction|reflexivity].
+Qed.
+
+(* hence: too many or too few tokens on an entry line are rejected *)
+Corollary entry_line_token_count b N (l : line) e : entry_of_line b N l = Some e -> length l = N + 1 \/ length l = 2.
+Proof.
+  destruct e as [i v]. intros H. apply entry_of_line_iff in H as (ts & tv & j & -> & _ & Ej & Hc).
+  apply subs_of_length in Ej. rewrite app_length. cbn [length].
+  destruct Hc as [[HN _]|[_ (x & -> & _)]]; [left|right]; cbn in *; lia.
+Qed.
+
+(* ... and so is a subscript below the index base (reading a file with a too large index_base) *)
+Lemma subs_of_base b (l : line) i : subs_of T b l = Some i -> Forall (fun t => exists z, t = Int z /\ (b <= z)%Z) l.
+Proof.
+  revert i; induction l as [|t l IH]; intros i H; cbn in H; [constructor|].
+  destruct (sub_of T b t) eqn:Et; [|discriminate]. destruct (subs_of T b l) as [xs|] eqn:El; [|discriminate].
+  constructor; [|eapply IH; reflexivity]. unfold sub_of in Et. destruct t as [w|z|x]; try discriminate.
+  destruct (Z.leb_spec 0 (z - b)); [|discriminate]. exists z. split; [reflexivity|lia].
+Qed.
+Corollary entry_line_base b N (l : line) e : entry_of_line b N l = Some e ->
+  Forall (fun t => exists z, t = Int z /\ (b <= z)%Z) (removelast l).
+Proof.
+  destruct e as [i v]. intros H. apply entry_of_line_iff in H as (ts & tv & j & -> & _ & Ej & _).
+  rewrite removelast_last. eapply subs_of_base; eauto.
+Qed.
+
+(* the type word: a file is accepted only if its first line starts with one of the four words; whatever follows the
+   first token of that line is ignored *)
+Theorem import_type_guard b (f : list line) o : import_lines b f = Some o ->
+  exists w x f', f = (Word w :: x) :: f' /\
+    (w = "tensor" \/ w = "sptensor" \/ w = "matrix" \/ w = "ktensor")%string.
+Proof.
+  unfold C16Lines.import_lines, C16Lines.import_stream. destruct f as [|l f]; [discriminate|].
+  unfold C16Lines.to_stream. cbn [flat_map]. rewrite <- app_assoc. cbn [app].
+  assert (R : forall (l : line) s, C16Lines.readline T (map Some l ++ None :: s) = (l, s)).
+  { clear. induction l as [|t l IH]; intros s; cbn; auto. now rewrite IH. }
+  rewrite R. cbn [fst snd]. destruct l as [|[w|z|x] l']; try discriminate.
+  intros H. exists w, l', f. split; [reflexivity|].
+  destruct (String.eqb_spec w "tensor"); [auto|]. destruct (String.eqb_spec w "sptensor"); [auto|].
+  destruct (String.eqb_spec w "matrix"); [auto|]. destruct (String.eqb_spec w "ktensor"); [auto|]. discriminate.
+Qed.
+
+Theorem import_header_rest_ignored b (t : token) (x : line) (f : list line) :
+  import_lines b ((t :: x) :: f) = import_lines b ([t] :: f).
+Proof.
+  unfold C16Lines.import_lines, C16Lines.import_stream, C16Lines.to_stream. cbn [flat_map]. rewrite <- !app_assoc. cbn [app map].
+  assert (R : forall (l : line) s, C16Lines.readline T (map Some l ++ None :: s) = (l, s)).
+  { clear. induction l as [|t l IH]; intros s; cbn; auto. now rewrite IH. }
+  cbn [C16Lines.readline]. rewrite R. cbn [fst snd]. reflexivity.
+Qed.
+
+(* an accepted sparse file yields subscripts inside the shape, one value per subscript *)
+Theorem import_sptensor_in_range b (f : list line) Sp : import_lines b f = Some (OSptensor Sp) ->
+  Forall (fun i => inb (sshape Sp) i = true) (ssubs Sp) /\ length (ssubs Sp) = length (svals Sp).
+Proof.
+  unfold C16Lines.import_lines, C16Lines.import_stream.
+  destruct (fst (C16Lines.readline T (C16Lines.to_stream T f))) as [|[w|z|x] l']; try discriminate.
+  destruct (String.eqb w "tensor").
+  { destruct (rd_shape_l T _) as [sh|]; [|discriminate]. cbn [bindo]. destruct (C16Lines.rd_vals D T parse ofZ _ _); discriminate. }
+  destruct (String.eqb w "sptensor").
+  - destruct (rd_shape_l T _) as [sh|]; [|discriminate]. cbn [bindo].
+    destruct (head_int T _) as [zn|]; [|discriminate]. cbn [bindo]. destruct (nat_of zn) as [nz|]; [|discriminate]. cbn [bindo].
+    destruct (C16Lines.rd_entries_l D T parse ofZ b _ nz _) as [es|]; [|discriminate]. cbn [bindo].
+    destruct (forallb (inb (fst sh)) (map fst es)) eqn:E; [|discriminate]. intros H; inversion H; subst. cbn [sshape ssubs svals].
+    split; [|now rewrite !map_length]. rewrite forallb_forall in E. now apply Forall_forall.
+  - destruct (String.eqb w "matrix").
+    { destruct (rd_shape_l T _) as [sh|]; [|discriminate]. cbn [bindo].
+      destruct (fst sh) as [|m [|n [|k r]]]; destruct (C16Lines.rd_vals D T parse ofZ _ _); discriminate. }
+    destruct (String.eqb w "ktensor"); [|discriminate].
+    destruct (rd_shape_z T _) as [sh|]; [|discriminate]. cbn [bindo].
+    destruct (head_int T _) as [zn|]; [|discriminate]. cbn [bindo]. destruct (nat_of zn) as [nz|]; [|discriminate]. cbn [bindo].
+    destruct (C16Lines.rd_factors_l D T parse ofZ _ _ _); discriminate.
+Qed.
+End G.
+
+(* ================================================================ the optional format arguments *)
+(* export_data(data, file, fmt_data, fmt_weights) only replaces the printf format of the number texts: the LAYOUT of the
+   file (words, integers, how many number texts stand on which line) does not depend on it.  The round trip is claimed
+   for formats with parse (print v) = v only ("%.16e", the default, and anything more precise). *)
+Section F.
+Variables (D T1 T2 : Type) (d0 : D) (print1 : D -> T1) (print2 : D -> T2).
+Definition tok_kind {T} (t : token T) : token unit :=
+  match t with Word w => Word w | Int z => Int z | Num _ => Num tt end.
+Definition layout {T} (f : list (list (token T))) : list (list (token unit)) := map (map tok_kind) f.
+
+Lemma layout_one_per_line (l : list D) :
+  layout (one_per_line D T1 print1 l) = layout (one_per_line D T2 print2 l).
+Proof. unfold layout, one_per_line. destruct l; [reflexivity|]. rewrite !map_map. reflexivity. Qed.
+Lemma layout_num_lines (A : list (list D)) :
+  layout (map (num_line D T1 print1) A) = layout (map (num_line D T2 print2) A).
+Proof. unfold layout, num_line. rewrite !map_map. apply map_ext. intros r. rewrite !map_map. reflexivity. Qed.
+Lemma layout_size_lines (s : shape) : layout (size_lines T1 s) = layout (size_lines T2 s).
+Proof. unfold layout, size_lines. cbn [map]. rewrite !map_map. reflexivity. Qed.
+
+Theorem export_layout_format_free b (o : obj D) :
+  layout (export_lines D T1 d0 print1 b o) = layout (export_lines D T2 d0 print2 b o).
+Proof.
+  destruct o as [X|Sp|K|m n A|s c]; unfold export_lines; unfold layout at 1 2; cbn [map]; rewrite ?map_app; fold (@layout T1); fold (@layout T2).
+  - f_equal. f_equal; [apply layout_size_lines|apply layout_one_per_line].
+  - f_equal. f_equal; [apply layout_size_lines|]. cbn [map]. f_equal. unfold entry_line. rewrite !map_map. apply map_ext.
+    intros e. rewrite !map_app, !map_map. reflexivity.
+  - f_equal. f_equal; [apply layout_size_lines|]. cbn [map]. f_equal. f_equal.
+    + unfold num_line. rewrite !map_map. reflexivity.
+    + induction (kfactors K) as [|F Fs IH]; [reflexivity|]. cbn [flat_map]. rewrite !map_app, IH. f_equal.
+      unfold factor_lines. cbn [map]. f_equal. rewrite !map_app.
+      change (map (map tok_kind)) with (@layout T1) at 1 2. change (map (map tok_kind)) with (@layout T2).
+      rewrite layout_size_lines, layout_num_lines. reflexivity.
+  - change (map (map (@tok_kind T1))) with (@layout T1). change (map (map (@tok_kind T2))) with (@layout T2).
+    rewrite layout_size_lines, layout_one_per_line. reflexivity.
+  - change (map (map (@tok_kind T1))) with (@layout T1). change (map (map (@tok_kind T2))) with (@layout T2).
+    rewrite layout_size_lines, layout_one_per_line. reflexivity.
+Qed.
+End F.
